@@ -40,7 +40,8 @@ AbsView == <<R, psi, nrm, mode, phase, nops, last>>
 NoRep == [known |-> FALSE]
 -----------------------------------------------------------------------------
 \* sites
-Dim(k) == IF k = "T" THEN 3 ELSE 2
+\* site kinds: "H" spin-1/2, "F" spinless fermion, "T" spin-1, "E" spin-1/2 fermions (empty, up, down, full; without charges only)
+Dim(k) == IF k = "T" THEN 3 ELSE IF k = "E" THEN 4 ELSE 2
 QSite(k, cons) ==
     IF cons = "U1" THEN (CASE k = "H" -> <<1, -1>> [] k = "F" -> <<0, 1>> [] OTHER -> <<-2, 0, 2>>)
     ELSE IF cons = "Z2" THEN (CASE k = "H" -> <<1, 0>> [] k = "F" -> <<0, 1>> [] OTHER -> <<0, 1, 0>>)
@@ -189,7 +190,9 @@ FormPat(p, n) == SubSeq(FormSeqs[p], 1, n)
 
 \* bond dimension patterns (non-uniform); index by (bc, L, cp)
 ChiPat(bc, n, cp) ==
-    IF bc = "finite" THEN
+    IF cp = 3 THEN   \* bond dimension > 1 only on the outer bonds (bond 0 = bond L for infinite bc)
+        [b \in 1..(n + 1) |-> IF (b = 1 \/ b = n + 1) /\ bc # "finite" THEN 2 ELSE 1]
+    ELSE IF bc = "finite" THEN
         (CASE n = 2 -> IF cp = 1 THEN <<1, 2, 1>> ELSE <<1, 3, 1>>
            [] n = 3 -> IF cp = 1 THEN <<1, 2, 3, 1>> ELSE <<1, 2, 2, 1>>
            [] n = 4 -> IF cp = 1 THEN <<1, 2, 3, 2, 1>> ELSE <<1, 2, 1, 2, 1>>
@@ -207,7 +210,7 @@ ChiPat(bc, n, cp) ==
 
 KindSeqs == << <<"H", "H", "H", "H", "H", "H", "H", "H">>, <<"F", "F", "F", "F", "F", "F", "F", "F">>,
                <<"H", "T", "H", "T", "H", "T", "H", "T">>, <<"T", "T", "T", "T", "T", "T", "T", "T">>,
-               <<"F", "H", "F", "H", "F", "H", "F", "H">> >>
+               <<"F", "H", "F", "H", "F", "H", "F", "H">>, <<"F", "E", "F", "E", "F", "E", "F", "E">> >>
 \* kind pattern kp with conservation: mixed kinds only without charges
 KindPat(kp, n) == SubSeq(KindSeqs[kp], 1, n)
 Homogeneous(kp) == kp \in {1, 2, 4}
@@ -249,7 +252,11 @@ Init == /\ R = NoRep /\ psi = [shape |-> <<>>, val |-> <<>>] /\ nrm = 1 /\ mode 
 New(bc, n, cp, kp, cn, fp, v, cx, nr) ==
     /\ phase = "init" /\ "new" \in Ctors
     /\ phase' = "live" /\ nops' = 0
-    /\ Keep(CaseNo(BcNum(bc), n, cp, kp, cn, fp, v, cx))
+    \* (one chain with two different kinds of fermionic sites is always kept)
+    /\ (Keep(CaseNo(BcNum(bc), n, cp, kp, cn, fp, v, cx))
+        \/ (kp = 6 /\ bc = "finite" /\ n = 3 /\ cp = 1 /\ fp = 3 /\ v = 0 /\ cx = 1 /\ nr = 1)
+        \* (and two U(1)-conserving segments: charge-resolved quantities on the outer bonds)
+        \/ (bc = "segment" /\ cn = 1 /\ kp \in {1, 4} /\ n = 2 /\ cp = 1 /\ fp = 1 /\ v = 0 /\ cx = 0 /\ nr = 1))
     /\ (cn # 0 => (Homogeneous(kp) /\ bc # "infinite"))
     /\ LET R0 == MkRep(bc, n, cp, kp, ConsOf(cn), fp, v, cx = 1)
            P == Contract(R0)
@@ -422,19 +429,25 @@ FromFull(bc, n, cp, kp, cn, v, cx, f, normalize) ==
                   nabs |-> IF normalize THEN <<1, 1>> ELSE <<TNorm2(P), 1>>])
 
 FromBflat(bc, n, cp, kp, cn, fp, v, cx) ==
-    /\ phase = "init" /\ "bflat" \in Ctors /\ bc # "infinite" /\ n >= 2
+    /\ phase = "init" /\ "bflat" \in Ctors /\ (bc # "infinite" => n >= 2)
     /\ phase' = "live" /\ nops' = 0
-    /\ Keep(CaseNo(BcNum(bc), n, cp, kp, cn, fp, v, 10 + cx))
-    /\ (cn # 0 => (Homogeneous(kp) /\ bc = "finite"))
+    \* (cp = 3 -- bond dimension > 1 only across the cell / segment boundary -- and one-site unit cells are always kept)
+    /\ (Keep(CaseNo(BcNum(bc), n, cp, kp, cn, fp, v, 10 + cx)) \/ (bc # "finite" /\ kp = 1 /\ fp = 1 /\ cn = 0 /\ (cp = 3 \/ n = 1)))
+    /\ (cn # 0 => (Homogeneous(kp) /\ bc = "finite")) /\ (cp = 3 => bc # "finite")
+    /\ (bc = "infinite" => cn = 0 /\ cx = 0)
     /\ LET R0 == MkRep(bc, n, cp, kp, ConsOf(cn), fp, v, cx = 1)
            P == Contract(R0)
        IN /\ SizeOK(R0) /\ ~TIsZero(P) /\ AbsLE(P, 400)
           \* from_Bflat detects the bond charges from the entries: every bond index must carry a non-zero entry
           /\ (cn # 0 => \A i \in 1..n : \A b \in 1..Len(R0.S[i + 1]) :
                            \E s \in 1..Len(R0.B[i]), a \in 1..Len(R0.S[i]) : ~GIsZero(R0.B[i][s][a][b]))
-          /\ R' = NoRep /\ psi' = P /\ nrm' = 1 /\ mode' = "unit"
+          \* infinite bc: canonical_form_infinite changes the gauge of the window; only the canonical form (norm_test) is claimed
+          /\ R' = NoRep /\ psi' = P /\ nrm' = 1 /\ mode' = IF bc = "infinite" THEN "loose" ELSE "unit"
           /\ last' = [op |-> "from_Bflat", c |-> <<bc, n, cp, kp, cn, fp, v, cx>>]
-          /\ Rec([op |-> "from_Bflat", src |-> R0, n2 |-> TNorm2(P), nabs |-> <<1, 1>>])
+          /\ Rec([op |-> "from_Bflat", src |-> R0, n2 |-> TNorm2(P), nabs |-> <<1, 1>>,
+                  chimax |-> LET RECURSIVE Mx(_)
+                                 Mx(b) == IF b = 0 THEN 0 ELSE IMax(Len(R0.S[b]), Mx(b - 1))
+                             IN Mx(Len(R0.S))])
 
 \* ---------------------------------------------------------------- form algebra
 \* convert_form(new_form): every site is rescaled; the state and the norm do not change
@@ -486,6 +499,14 @@ Cuts(t) == IF t.shape[1] = 1 /\ t.shape[Len(t.shape)] = 1 THEN 2..(Len(t.shape) 
 \* orthonormal environment states) and drops that factor; 1 for finite bc
 S2Sum(e) == ISumSeq([k \in 1..Len(e) |-> Pow2(2 * e[k])])
 Outer2(Rr) == IF Rr.bc = "segment" THEN (IF Rr.known THEN S2Sum(Rr.S[1]) * S2Sum(Rr.S[NL(Rr) + 1]) ELSE 0) ELSE 1
+\* reduced density matrix of the LEFT part of the cut after k axes, and the charge of each of its row indices
+\* (charge of the outer left index + charges of the sites left of the cut): the Schmidt spectrum per charge sector
+RhoLeft(t, k) == LET M == TLCEval(PsiMat(t, k)) IN MMul(M, MDagger(M))
+RowCharges(t, Rr, k) ==
+    LET sh == SubSeq(t.shape, 1, k)
+    IN [r \in 1..IProdSeq(sh) |-> LET idx == Unflat(r - 1, sh) IN
+          QNorm(Rr.qb[1][idx[1] + 1] + ISumSeq([a \in 1..(k - 1) |-> QSite(Rr.kinds[a], Rr.cons)[idx[a + 1] + 1]]), Rr.cons)]
+
 \* norm bookkeeping of a canonicalizing step: from direction P (tensors exact in mode "raw", normalized otherwise) to
 \* direction Pn; the recorded norm is multiplied by sqrt(a / b)
 CanonFac(m, renorm, P, Pn) == IF renorm THEN <<1, 1>> ELSE IF m = "raw" THEN <<TNorm2(Pn), 1>> ELSE <<TNorm2(Pn), TNorm2(P)>>
@@ -498,7 +519,9 @@ Canonical(renorm) ==
     /\ UNCHANGED <<psi, nrm, nops>>
     /\ Rec([op |-> "canonical_form", renormalize |-> renorm, n2 |-> TNorm2(psi), outer2 |-> Outer2(R),
              nfac |-> CanonFac(mode, renorm, psi, psi),
-             rho |-> [k \in Cuts(psi) |-> RhoCut(psi, k)]])
+             rho |-> [k \in Cuts(psi) |-> RhoCut(psi, k)],
+             rhoq |-> IF R.cons # "none" /\ Len(psi.val) <= 64
+                      THEN [k \in Cuts(psi) |-> [rho |-> RhoLeft(psi, k), q |-> RowCharges(psi, R, k)]] ELSE <<>>])
 
 -----------------------------------------------------------------------------
 DoNew == phase = "init" /\ \E bc \in BCs, n \in 1..MaxL, cp \in 1..2, kp \in 1..5, cn \in 0..2, fp \in 1..6, v \in 0..1, cx \in 0..1, nr \in {1, 3} :
@@ -514,7 +537,7 @@ DoCovering == phase = "init" /\ \E n \in (2..MaxL) \cup {6, 8}, mp \in 1..4, kp 
                  /\ Covering(n, mp, kp, cn, v, cx)
 DoFromFull == phase = "init" /\ \E bc \in BCs, n \in 2..MaxL, cp \in 1..2, kp \in 1..5, cn \in 0..2, v \in 0..1, cx \in 0..1,
                  f \in {"none", "A", "B", "C", "G"}, nz \in BOOLEAN : FromFull(bc, n, cp, kp, cn, v, cx, f, nz)
-DoFromBflat == phase = "init" /\ \E bc \in BCs, n \in 2..MaxL, cp \in 1..2, kp \in 1..5, cn \in 0..2, fp \in 1..6, v \in 0..1, cx \in 0..1 :
+DoFromBflat == phase = "init" /\ \E bc \in BCs, n \in 1..MaxL, cp \in 1..3, kp \in 1..5, cn \in 0..2, fp \in 1..6, v \in 0..1, cx \in 0..1 :
                  FromBflat(bc, n, cp, kp, cn, fp, v, cx)
 DoConvert == "convert" \in Acts /\ phase = "live" /\ R.known /\ nops < MaxConv /\ \E nf \in FormTargets(IF R.known THEN NL(R) ELSE 1) : ConvertForm(nf)
 DoSetB == "setB" \in Acts /\ phase = "live" /\ R.known /\ nops < MaxConv /\ \E i \in 0..(MaxL - 1), f \in {"A", "C", "Th"}, v \in 0..1 : i < NL(R) /\ (i + v) % 2 = 0 /\ SetB(i, f, v)
